@@ -1030,3 +1030,263 @@ def queries_forward(rep, ex: Explorer):
                 rep.check(vals == ["a", "b"], "QUERIES.forward", site, slot + " signature", "the query container carries the signature of the base it was read from",
                           extracted=repr(vals), required="['a', 'b']", function=site)
     rep.floor("Queries constructions evaluated", n, 12)
+
+
+# ----------------------------------------------------------------------------------------------
+# the chain behind the public wrappers: query template, first base of the file, visitCkbs
+# ----------------------------------------------------------------------------------------------
+_SIG_BLOCK = re.compile(r"^\s*signature\s+[A-Za-z_][\w-]*(\s*,\s*[A-Za-z_][\w-]*)*\s*\n\s*conditionals\s+[A-Za-z_][\w-]*\s*\{\s*$")
+_MARK = "⟪QUERYTEXT⟫"
+
+
+def wrapper_chain(rep, ex: Explorer):
+    """WRAP.chain (by evaluation, the grammar and the visitor summarised): what the public wrappers hand to the grammar and
+    what they hand back.  (a) `parseQuery` wraps the caller's query text - unchanged, exactly once - into a belief-base
+    template that is itself well formed, and returns the conditionals mapping of the parsed template; (b)
+    `parse_queries_from_str` returns the query container of `parseCKB(text)` or of `parseQuery(text)`, never of anything
+    else; (c) `parseCKB` returns the base the visitor built for the (single) block of the text it was given; (d) `visitCkbs`
+    visits the signature first, then every block once, and its result holds every base it built, in file order; (e) the base
+    built for a block carries the declared signature and the block's name."""
+    prog = ex.prog
+
+    def summ(name):
+        def h(I, fi, a, k, n):
+            I.log("chain.call", n, callee=name, args=tuple(a))
+            return Sym((name, tuple(desc(x) for x in a)))
+        return h
+
+    # (a) parseQuery -----------------------------------------------------------------------------
+    qual = f"{WR}.parseQuery"
+    if qual in prog.functions:
+        site = fn_label(prog, qual)
+        paths = ex.run(qual, lambda I: ([Const(_MARK)], {}), summaries={f"{WR}.parseCKB": summ("parseCKB")}, key="chain-parseQuery")  # (a concrete, unmistakable text: every way of building the template folds to a constant)
+        rets = [p for p in paths if p.outcome[0] == "return"]
+        if not rets:
+            raise AnalysisError(f"{site}: no returning path")
+        for p in rets:
+            calls = [ev for ev, Q in iter_events(p.events) if ev.kind == "chain.call" and ev.callee == "parseCKB"]
+            if len(calls) != 1 or len(calls[0].args) != 1:
+                raise AnalysisError(f"{site}: {len(calls)} calls of parseCKB on a returning path")
+            a = calls[0].args[0]
+            if not (isinstance(a, Const) and isinstance(a.value, str)):
+                raise AnalysisError(f"{site}: the text handed to parseCKB is not a constant template around the query text ({a!r})"[:200])
+            t = a.value
+            cnt = t.count(_MARK)
+            rep.check(cnt == 1, "WRAP.chain", site, "query text in the template", "the caller's query text is parsed exactly once, unchanged",
+                      extracted=f"the template holds the query text {cnt} time(s)", required="once", function=site)
+            if cnt == 1:
+                pre, post = t.split(_MARK)
+                okp = bool(_SIG_BLOCK.match(pre))
+                oks = bool(re.match(r"^\s*\}\s*$", post))
+                rep.check(okp, "WRAP.chain", site, "template before the query text", "the query text is the content of one conditionals block behind a well-formed signature section, with nothing but white space in front of it",
+                          extracted=repr(pre)[:160], required="signature <atoms> NEWLINE conditionals <name> { <white space>", function=site)
+                rep.check(oks, "WRAP.chain", site, "template after the query text", "nothing but the closing brace follows the query text (anything else is parsed as part of the caller's queries or hides a trailing error)",
+                          extracted=repr(post)[:80], required="<white space> } <white space>", function=site)
+            rv = p.outcome[1]
+            d = desc(rv)
+            want = ("parseCKB", (desc(a),))
+            ok = getattr(rv, "name", None) == "conditionals" and isinstance(getattr(rv, "obj", None), Sym) and rv.obj.label == want
+            if not ok and "conditionals" not in repr(d):
+                rep.violation("WRAP.chain", site, "result", "the queries are the conditionals mapping of the parsed template", extracted=repr(rv)[:160], required="parseCKB(template).conditionals", function=site)
+            elif not ok:
+                raise AnalysisError(f"{site}: cannot relate the result {rv!r} to the conditionals of the parsed template"[:240])
+            else:
+                rep.ok("WRAP.chain", site, "result", "the queries are the conditionals mapping of the parsed template")
+        rep.floor("parseQuery returning paths", len(rets), 1)
+
+    # (b) parse_queries_from_str -----------------------------------------------------------------
+    qual = f"{WR}.parse_queries_from_str"
+    site = fn_label(prog, qual)
+    S = {f"{WR}.parseCKB": summ("parseCKB"), "inference.queries.Queries": summ("Queries")}
+    if f"{WR}.parseQuery" in prog.functions:
+        S[f"{WR}.parseQuery"] = summ("parseQuery")
+    # (explored without the report: the path on which parseQuery yields no query at all ends in an error of its own - an
+    # UnboundLocalError today -, which is a rejection and no concern of this rule)
+    I_b = Interp(prog, summaries=S)
+    paths = I_b.explore(qual, lambda I: ([Sym("text", "str")], {}))
+    if ex.report is not None:
+        ex.report.absorb_stats(I_b)
+    nret = 0
+    for p in paths:
+        if p.outcome[0] != "return":
+            continue
+        nret += 1
+        rv = p.outcome[1]
+        lab = rv.label if isinstance(rv, Sym) else None
+        TXT = desc(Sym("text", "str"))
+        good = (("Queries", (("parseCKB", (TXT,)),)), ("Queries", (("parseQuery", (TXT,)),)))
+        # with parseQuery gone (inlined), the template check above does not apply; accept Queries(parseCKB(<template>).conditionals)
+        if lab in good:
+            rep.ok("WRAP.chain", site, f"result ({'base format' if lab == good[0] else 'query list'})", "the container is built from what parsing the caller's text gave")
+            if lab == good[1]:
+                # the template puts the text inside the braces of one block and parseCKB hands out the first block only: a text
+                # that closes the block and opens another one (`... } conditionals X { ...`) would be accepted with its tail
+                # dropped.  It cannot get here as long as no text containing the keyword is routed to the template.
+                kw = [(k, v) for k, v in p.decisions if "conditionals" in repr(k) and "text" in repr(k)]
+                free = any(k[0] == "in" and v is False for k, v in kw)
+                if kw and not free:
+                    raise AnalysisError(f"{site}: the route to the query template depends on {show_pred(kw[0][0])[:120]}; cannot tell whether texts with a second block are kept away from it")
+                rep.check(free, "REJECT.template", site, "texts routed to the query template", "a text that can close the template's block and open another one (it needs the keyword `conditionals` for that) is not pasted into the template: only the first block would be read and the rest dropped without an error",
+                          extracted="decided by: " + ("; ".join(f"{show_pred(k)[:70]}={v}" for k, v in p.decisions[:4]) or "nothing"), required="'conditionals' not in text on the way to parseQuery", function=site)
+        elif isinstance(lab, tuple) and lab[:1] == ("Queries",):
+            inner = repr(lab[1])
+            if "parseCKB" in inner or "parseQuery" in inner:
+                if "text" in inner:
+                    raise AnalysisError(f"{site}: a query container built from {inner[:160]}: cannot relate it to the parse of the caller's text")
+                rep.violation("WRAP.chain", site, "result", "the container is built from what parsing the caller's text gave", extracted=inner[:160], required="Queries(parseCKB(text)) or Queries(parseQuery(text))", function=site)
+            else:
+                rep.violation("WRAP.chain", site, "result", "the container is built from what parsing the caller's text gave", extracted=inner[:160], required="Queries(parseCKB(text)) or Queries(parseQuery(text))", function=site)
+        else:
+            raise AnalysisError(f"{site}: returns {rv!r}, not a query container the analysis can read"[:200])
+    rep.floor("parse_queries_from_str returning paths", nret, 2)
+
+    # (c) parseCKB -------------------------------------------------------------------------------
+    qual = f"{WR}.parseCKB"
+    site = fn_label(prog, qual)
+    for nkb in (1,):
+        held = {}
+
+        def vis_new(I, fi, a, k, n):
+            from ..absvals import ExtV as _ExtV
+            return I.alloc(HObj(VIS, {"visit": _ExtV("antlr4.ParseTreeVisitor.visit")}))
+
+        def hook_visit(I, args, kwargs, node, held=held):
+            I.log("chain.call", node, callee="visit", args=tuple(args))
+            d = I.alloc(HDict(entries={("kb", 1): Sym("BASE1")}))
+            return d
+
+        I_ = Interp(prog, models={"antlr4.ParseTreeVisitor.visit": hook_visit}, summaries={f"{WR}._getParseTree": summ("tree"), f"{VIS}": vis_new})
+        try:
+            cp = I_.explore(qual, lambda I: ([Sym("text", "str")], {}))
+        except AnalysisError:
+            raise
+        if ex.report is not None:
+            ex.report.absorb_stats(I_)
+        rets = [p for p in cp if p.outcome[0] == "return"]
+        if len(rets) != 1 or len(cp) != 1:
+            raise AnalysisError(f"{site}: {len(cp)} paths / {len(rets)} returning on a text with one block")
+        p = rets[0]
+        vis = [ev for ev, Q in iter_events(p.events) if ev.kind == "chain.call" and ev.callee == "visit"]
+        tr = [ev for ev, Q in iter_events(p.events) if ev.kind == "chain.call" and ev.callee == "tree"]
+        ok_tree = len(tr) == 1 and len(tr[0].args) == 1 and isinstance(tr[0].args[0], Sym) and tr[0].args[0].label == "text"
+        if not ok_tree and tr and "text" in repr([desc(x) for x in tr[0].args]) and any(m in repr([desc(x) for x in tr[0].args]) for m in ("'join'", "'replace'", "'split'", "'splitlines'", "'translate'", "'lower'", "'upper'")):
+            rep.violation("REJECT.input", site, "text handed to the grammar", "the grammar reads the caller's text unchanged: rewriting it first (dropping, replacing or re-splitting characters) makes malformed input well formed or changes what a comment covers",
+                          extracted=repr(tr[0].args[0])[:160], required="the text argument itself", function=site)
+            ok_tree = None
+        elif not ok_tree and tr and "text" in repr([desc(x) for x in tr[0].args]):
+            raise AnalysisError(f"{site}: the text handed to the grammar is {tr[0].args!r}; cannot relate it to the argument"[:200])
+        if ok_tree is not None:
+          rep.check(ok_tree, "WRAP.chain", site, "text parsed", "the grammar reads the text the caller passed", extracted=repr([e.args for e in tr])[:160], required="_getParseTree(text), once", function=site)
+        ok_vis = len(vis) == 1 and len(vis[0].args) == 1 and isinstance(vis[0].args[0], Sym) and vis[0].args[0].label == ("tree", (desc(Sym("text", "str")),))
+        if ok_tree is None:
+            vis = []
+            ok_vis = True
+        rep.check(ok_vis or not ok_tree, "WRAP.chain", site, "tree visited", "the visitor walks the tree of that text", extracted=repr([e.args for e in vis])[:160], required="visitor.visit(tree)", function=site)
+        rv = p.outcome[1]
+        got = view(p.state, rv)
+        is_base = isinstance(rv, Sym) and rv.label == "BASE1" or (getattr(rv, "label", None) == "BASE1")
+        if not is_base:
+            dd = repr(desc(rv))
+            if "BASE1" in dd and dd.count("BASE1") == 1 and not isinstance(rv, Ref):
+                is_base = True
+        rep.check(is_base, "WRAP.chain", site, "result", "the base returned is the one the visitor built for the block of the text", extracted=repr(rv)[:160], required="the single value of visitor.visit(tree)", function=site)
+    rep.floor("parseCKB evaluations", 1, 1)
+
+    # (d) visitCkbs on concrete trees with one and two blocks -------------------------------------
+    qual = f"{VIS}.visitCkbs"
+    site = fn_label(prog, qual)
+    from ..absvals import ExtV
+    nck = 0
+    for names in (["kb"], ["kb", "other"], ["kb", "kb"]):
+        held = {"order": []}
+
+        def visit_ck(I, args, kwargs, node, held=held):
+            x = args[0] if args else None
+            o = I.deref(x) if isinstance(x, Ref) else None
+            if isinstance(o, HOpaque) and o.typ == "ParseNode":
+                if o.attrs["rule"] == "signature":
+                    held["order"].append("signature")
+                    return I.new_list([Const("a"), Const("b")])
+                if o.attrs["rule"] == "conditionals":
+                    me = I.deref(held["s"])
+                    sg = me.attrs.get("signature")
+                    vw = view(I.state, sg) if sg is not None else None
+                    held["order"].append(("block", o.attrs["idx"], repr(vw)))
+                    return I.alloc(HObj("inference.belief_base.BeliefBase", {"name": Const(o.attrs["name"]), "tag": Const(o.attrs["idx"])}))
+            raise AnalysisError(f"{site}: visit() of something that is not a node of the tree: {x!r}")
+
+        def setup_k(I, names=names, held=held):
+            s_ = I.alloc(HObj(VIS, {"visit": ExtV("antlr4.ParseTreeVisitor.visit")}))
+            held["s"] = s_
+            held["order"].clear()
+            sgn = I.alloc(HOpaque("ParseNode", {"rule": "signature", "visit": "visitSignature", "text": Const("a,b\n"), "labels": {}, "kids": {}, "nchildren": 2}))
+            blocks = [I.alloc(HOpaque("ParseNode", {"rule": "conditionals", "visit": "visitConditionals", "idx": i, "name": nm, "text": Const(nm + "{}"), "labels": {"name": I.alloc(HOpaque("Token", {"text": Const(nm)}))}, "kids": {}, "nchildren": 4}))
+                      for i, nm in enumerate(names)]
+            ctx = I.alloc(HOpaque("ParseNode", {"rule": "ckbs", "visit": "visitCkbs", "text": Const("..."), "labels": {}, "kids": {"signature": [sgn], "conditionals": blocks}, "many": {"conditionals": True}, "nchildren": 2 + len(names)}))
+            return [s_, ctx], {}
+
+        I_ = Interp(prog, models={"antlr4.ParseTreeVisitor.visit": visit_ck})
+        I_.max_depth = 8
+        kp = I_.explore(qual, setup_k)
+        if ex.report is not None:
+            ex.report.absorb_stats(I_)
+        slot = f"file with block(s) {names}"
+        if len(kp) != 1 or kp[0].outcome[0] != "return":
+            raise AnalysisError(f"{site}: evaluation on a concrete tree did not give one result ({slot}: {[p.outcome for p in kp]!r})"[:300])
+        nck += 1
+        order = list(held["order"])
+        want_order = ["signature"] + [("block", i, repr(("list", [("one", Const("a")), ("one", Const("b"))]))) for i in range(len(names))]
+        sig_first = order[:1] == ["signature"] and order.count("signature") == 1
+        rep.check(sig_first, "WRAP.chain", site, f"signature first ({slot})", "the signature section is read once, before any block (the blocks are built with it)", extracted=repr([o if isinstance(o, str) else o[:2] for o in order])[:160], required="signature, then the blocks", function=site)
+        blocks_seen = [o[1] for o in order if isinstance(o, tuple)]
+        rep.check(blocks_seen == list(range(len(names))), "WRAP.chain", site, f"blocks visited ({slot})", "every block is visited once, in file order", extracted=repr(blocks_seen), required=repr(list(range(len(names)))), function=site)
+        sig_seen = [o[2] for o in order if isinstance(o, tuple)]
+        if sig_first and any("'a'" not in s_ or "'b'" not in s_ for s_ in sig_seen):
+            rep.violation("WRAP.chain", site, f"signature known to the blocks ({slot})", "when a block is built the visitor's signature is the declared one", extracted=repr(sig_seen)[:200], required="['a', 'b']", function=site)
+        else:
+            rep.ok("WRAP.chain", site, f"signature known to the blocks ({slot})", "when a block is built the visitor's signature is the declared one")
+        st = kp[0].state
+        rv = kp[0].outcome[1]
+        d = st.heap.get(rv.oid) if isinstance(rv, Ref) else None
+        if not (isinstance(d, HDict) and not d.each and not d.sym):
+            raise AnalysisError(f"{site}: the result is not a mapping the analysis can read ({slot}): {view(st, rv)!r}"[:240])
+        tags = []
+        for k_, v_ in d.entries.items():
+            o_ = st.heap.get(v_.oid) if isinstance(v_, Ref) else None
+            t_ = o_.attrs.get("tag") if isinstance(o_, HObj) else None
+            tags.append(t_.value if isinstance(t_, Const) else repr(v_))
+        rep.check(tags == list(range(len(names))), "WRAP.chain", site, f"result ({slot})", "the result holds every base built, each once, in file order (parseCKB hands out the first)", extracted=repr(tags), required=repr(list(range(len(names)))), function=site)
+    rep.floor("visitCkbs trees evaluated", nck, 3)
+
+    # (e) visitConditionals: signature and name of the base ---------------------------------------
+    qual = f"{VIS}.visitConditionals"
+    site = fn_label(prog, qual)
+    CTX = ElemV(("ctx",), "ctx")
+
+    def visit_model(I, args, kwargs, node):
+        return I.alloc(HList([("sym", ("rest", "condition"))]))
+
+    def setup_e(I):
+        s = I.alloc(HObj(VIS, {"sigcheck": I.alloc(HList()), "signature": Sym("DECLARED"), "visit": ExtV("antlr4.ParseTreeVisitor.visit")}))
+        return [s, CTX], {}
+
+    ne = 0
+    for p in ex.run(qual, setup_e, key="chain-visitConditionals", models={"antlr4.ParseTreeVisitor.visit": visit_model}):
+        if p.outcome[0] != "return":
+            continue
+        bbv = p.outcome[1]
+        o = p.state.heap.get(bbv.oid) if isinstance(bbv, Ref) else None
+        if not isinstance(o, HObj):
+            raise AnalysisError(f"{site}: does not return an object built here")
+        ne += 1
+        sg = o.attrs.get("signature")
+        rep.check(isinstance(sg, Sym) and sg.label == "DECLARED", "WRAP.chain", site, "signature of the base", "a parsed base has the declared signature", extracted=repr(view(p.state, sg))[:120], required="the visitor's signature (read from the signature section)", function=site)
+        nm = o.attrs.get("name")
+        okn = "name" in repr(desc(nm)) and "ctx" in repr(desc(nm))
+        if not okn and isinstance(nm, Const):
+            rep.violation("WRAP.chain", site, "name of the base", "the base is named as its block", extracted=repr(nm), required="ctx.name.text", function=site)
+        elif not okn:
+            raise AnalysisError(f"{site}: cannot read the name given to the base ({nm!r})")
+        else:
+            rep.ok("WRAP.chain", site, "name of the base", "the base is named as its block")
+    rep.floor("visitConditionals bases looked at", ne, 2)
